@@ -2,7 +2,7 @@
 
 Exhaustive over small finite spaces: (n x spectrum pattern x overlap kind x eps x occ_max), (vector
 menu x orders x sign patterns), all index quadruples n <= 4 / 6, all case variants of the
-vocabulary + all single-character edits.
+vocabulary + all single-character edits + every word wrapped in every pair of decoration characters.
 """
 
 from __future__ import annotations
@@ -298,7 +298,7 @@ def strtobool_cases(ctx):
             if not ok:
                 ctx.violation("strtobool", "strtobool:documented-word-wrong", {"string": s, "origin": origin}, f"strtobool({s!r}) -> {got!r} / {exc!r}, expected {want}")
 
-    alphabet = "aey1 0n"
+    alphabet = "aey1 0n.,-_\t'\"!"
     for word in VOCAB:
         for mask in range(1 << len(word)):
             probe("".join(c.upper() if mask >> i & 1 else c for i, c in enumerate(word)), "case-variant")
@@ -309,6 +309,11 @@ def strtobool_cases(ctx):
             probe(word[:i] + word[i + 1 :], "delete")
             for ch in alphabet:
                 probe(word[:i] + ch + word[i + 1 :], "substitute")
+    for word in VOCAB:  # the word decorated on both sides (Fortran-style .true., quoted, padded)
+        for a in alphabet:
+            for b in alphabet:
+                probe(a + word + b, "wrapped")
+                probe(a + word.upper() + b, "wrapped")
     for s in ("", " ", "2", "-1", "yes ", " no", "tru", "nope", "oui", "none", "null", "10", "00", "01", "t rue"):
         probe(s, "other")
     ctx.sample({"strings_tried": len(tried), "examples": sorted(tried)[:8]})
@@ -338,7 +343,7 @@ def run(ctx):
     ctx.rule = (
         f"full product: derive_naturals/check_dm for n=1..{nmax} x 11 spectrum patterns (incl. values at -eps+-d, occ_max+eps+-d, d=eps/1000) x 3 overlap kinds x "
         f"{3 + ctx.thorough} (eps, occ_max) settings; volume for every 1/2/3-subset of 6 vectors x all orders x all sign patterns; set_four_index_element (a distinct value, 0.0 and -0.0 onto a sentinel-filled array) for all "
-        f"index quadruples n<=" + str(nq) + "; strtobool for every letter-case variant of the 12 documented words and every single-character insert/delete/substitute over 'aey1 0n'. "
+        f"index quadruples n<=" + str(nq) + "; strtobool for every letter-case variant of the 12 documented words and every single-character insert/delete/substitute over the 15 characters a e y 1 space 0 n . , - _ tab ' \" !, and every word (lower / upper case) wrapped in every ordered pair of those characters. "
         "A case is distinct by its parameters (four-index: by symmetry orbit)."
     )
     ctx.assumptions += [
